@@ -301,6 +301,26 @@ func builtinMakeValidator(env *lisp.LEnv, args *lisp.LVal) *lisp.LVal {
 // finds the correct validation handler for the type
 func getHandler(env *lisp.LEnv, in *lisp.LVal, name string, constraints []*lisp.LVal) *lisp.LVal {
 	lType, _ := lisp.GoString(in)
+	// Every element of a type's constraint list must already BE a constraint,
+	// and that is decided here, at construction.  The list used to be stored
+	// unchecked and only applyConstraint noticed, at application time -- when
+	// an inverting combinator reads the bad-arguments error as "the inner
+	// constraint failed": (s:deftype "T" "any" (s:not (s:make-validator "X"
+	// s:int 5))) approved every value.  The one non-constraint allowed is the
+	// subtype name that may lead a tagged-value's list (builtinCheckTaggedVal).
+	for i, c := range constraints {
+		if i == 0 && lType == TaggedVal && c.Type == lisp.LString {
+			continue
+		}
+		if c.Type == lisp.LError {
+			return c
+		}
+		if !isValidator(c) {
+			return lisp.ErrorConditionf(BadArgs,
+				"Value is not a schema constraint: %v. Constraints must be built by the s package (s:int, s:has-key, s:gt, ...) or by libschema.NewValidator.",
+				c)
+		}
+	}
 	var res *lisp.LVal
 	switch lType {
 	case String:
